@@ -218,11 +218,25 @@ def prop_theorems(pid):
     return THM_RE.findall(src), len(EX_RE.findall(src))
 
 
-def lean_check(pid, gen_modules=(), clean=False, leanchecker=False):
+def lean_check(pid, gen_modules=(), clean=False, leanchecker=False, extra=()):
     """Build Props.<pid> (re-checking every theorem it depends on), audit axioms of every property theorem.
     Returns dict(ok, obligations, discharged, axioms, log, failed)."""
     res = {"ok": False, "obligations": 0, "discharged": 0, "axioms": {}, "log": "", "failed": []}
     mod = f"HeimdallModel.Props.{pid}"
+    if extra:
+        # further property modules audited together with Props/<pid>.lean
+        res = lean_check(pid, clean=clean, leanchecker=leanchecker)
+        for e in extra:
+            r2 = lean_check(e, leanchecker=leanchecker)
+            res["obligations"] += r2["obligations"]
+            res["discharged"] += r2["discharged"]
+            res["axioms"].update(r2["axioms"])
+            res["log"] += r2["log"]
+            if not r2["ok"]:
+                res["ok"] = False
+                res["failed"] = list(res["failed"]) + list(r2["failed"])
+                res["discharged"] = 0
+        return res
     with LeanLock():
         if clean:
             lake(["clean"])
@@ -391,9 +405,10 @@ def res_of(x):
     return x["res"] if isinstance(x, dict) and "res" in x else x
 
 
-def step_lean(R, pid, thorough_extra=True):
-    """Theorems of Props/<pid>.lean. Returns True when all obligations are discharged."""
-    lc = lean_check(pid, clean=False, leanchecker=(R.tier == "thorough" and thorough_extra))
+def step_lean(R, pid, thorough_extra=True, extra=()):
+    """Theorems of Props/<pid>.lean (and of the `extra` property modules). Returns True when all obligations are
+    discharged."""
+    lc = lean_check(pid, clean=False, leanchecker=(R.tier == "thorough" and thorough_extra), extra=extra)
     R.coverage.update({
         "obligations": max(lc["obligations"], 1), "discharged": lc["discharged"],
         "checker_cmd": f"cd /verif/lean && lake build HeimdallModel.Props.{pid} && lake env lean .lake/audit_{pid}.lean"
